@@ -5,7 +5,7 @@
 From Via Require Import M_Char M_Encode M_Parse M_Receive M_Server P_Server.
 Local Open Scope N_scope.
 
-From Via Require Import P_C09.
+From Via Require Import P_C09 P_Shapes.
 
 Theorem C11_close_leaves_nothing : forall w, Forall conn_ok (w_conns w) ->
   let w1 := fst (server_close w) in
